@@ -108,7 +108,6 @@ use futures_core::{FusedStream, Stream};
 /// # Ok(()) }
 /// ```
 pub struct FuturesUnordered<F> {
-    rem: usize,
     pub(crate) groups: Vec<FuturesUnorderedBounded<F>>,
     poll_next: usize,
 }
@@ -131,7 +130,6 @@ impl<F> FuturesUnordered<F> {
     /// return [`Poll::Ready(None)`](Poll::Ready).
     pub const fn new() -> Self {
         Self {
-            rem: 0,
             groups: Vec::new(),
             poll_next: 0,
         }
@@ -145,7 +143,6 @@ impl<F> FuturesUnordered<F> {
     pub fn with_capacity(n: usize) -> Self {
         if n > 0 {
             Self {
-                rem: 0,
                 groups: Vec::from_iter([FuturesUnorderedBounded::new(n)]),
                 poll_next: 0,
             }
@@ -161,8 +158,6 @@ impl<F> FuturesUnordered<F> {
     /// ensure that [`FuturesUnordered::poll_next`](Stream::poll_next) is called
     /// in order to receive wake-up notifications for the given future.
     pub fn push(&mut self, fut: F) {
-        self.rem += 1;
-
         let last = match self.groups.last_mut() {
             Some(last) => last,
             None => {
@@ -184,14 +179,16 @@ impl<F> FuturesUnordered<F> {
 
     /// Returns `true` if the set contains no futures.
     pub fn is_empty(&self) -> bool {
-        self.rem == 0
+        self.groups.iter().all(|g| g.is_empty())
     }
 
     /// Returns the number of futures contained in the set.
     ///
     /// This represents the total number of in-flight futures.
     pub fn len(&self) -> usize {
-        self.rem
+        // counted from the groups (there are only logarithmically many) rather than tracked
+        // separately: a separate count goes stale when a poll unwinds out of a group
+        self.groups.iter().map(|g| g.len()).sum()
     }
 
     /// Returns the number of futures that can be contained in the set.
@@ -201,7 +198,7 @@ impl<F> FuturesUnordered<F> {
             [only] => only.capacity(),
             [.., last] => {
                 let spare_cap = last.capacity() - last.len();
-                self.rem + spare_cap
+                self.len() + spare_cap
             }
         }
     }
@@ -211,11 +208,7 @@ impl<F: Future> Stream for FuturesUnordered<F> {
     type Item = F::Output;
 
     fn poll_next(mut self: Pin<&mut Self>, cx: &mut Context<'_>) -> Poll<Option<Self::Item>> {
-        let Self {
-            rem,
-            groups,
-            poll_next,
-        } = &mut *self;
+        let Self { groups, poll_next } = &mut *self;
         if groups.is_empty() {
             return Poll::Ready(None);
         }
@@ -228,7 +221,6 @@ impl<F: Future> Stream for FuturesUnordered<F> {
             let poll = Pin::new(&mut groups[*poll_next]).poll_next(cx);
             match poll {
                 Poll::Ready(Some(x)) => {
-                    *rem -= 1;
                     return Poll::Ready(Some(x));
                 }
                 Poll::Ready(None) => {
@@ -238,7 +230,6 @@ impl<F: Future> Stream for FuturesUnordered<F> {
                     if groups.is_empty() {
                         // group should contain at least 1 set
                         groups.push(group);
-                        debug_assert_eq!(*rem, 0);
                         return Poll::Ready(None);
                     }
 
@@ -258,7 +249,8 @@ impl<F: Future> Stream for FuturesUnordered<F> {
     }
 
     fn size_hint(&self) -> (usize, Option<usize>) {
-        (self.rem, Some(self.rem))
+        let len = self.len();
+        (len, Some(len))
     }
 }
 impl<F: Future> FusedStream for FuturesUnordered<F> {
@@ -333,7 +325,7 @@ impl<Fut> fmt::Debug for FuturesUnordered<Fut> {
     fn fmt(&self, f: &mut fmt::Formatter<'_>) -> fmt::Result {
         f.debug_struct("FuturesUnordered")
             .field("queues", &self.groups)
-            .field("len", &self.rem)
+            .field("len", &self.len())
             .finish_non_exhaustive()
     }
 }
